@@ -1,2 +1,3 @@
+pub mod c10;
 pub mod c12;
 pub mod c16;
